@@ -271,6 +271,40 @@ def pack_nested_module_names():
     return [common, f], []
 
 
+def pack_alias_nested_type():
+    """A type nested in a message of another file, referenced through a module that has to be imported under an alias (a field
+    is named like the module) while that file also has a top-level type with the nested type's short name."""
+    common = file('acme/wire/v1/common.proto', P, messages=[
+        message('Money', [field('units', 1, 'int64'), field('state', 2, Q('Money.Status'))],
+                nested=[message('Status', [field('settled', 1, 'bool'), field('note', 2, 'string')])],
+                enums=[enum('Unit', 'UNIT_UNSPECIFIED', 'CENT')]),
+        message('Status', [field('code', 1, 'int32')])], enums=[enum('Unit', 'UNIT_UNSPECIFIED', 'KILO', 'MEGA')])
+    hist, hist_e = map_field(Q('Order'), 'history', 4, 'string', Q('Money.Status'))
+    f = file('acme/wire/v1/orders.proto', P, messages=[
+        message('Order', [field('common', 1, 'string'), field('payment', 2, Q('Money.Status')), field('status', 3, Q('Status')), hist,
+                          field('unit', 5, 'enum:' + Q('Money.Unit')), field('scale', 6, 'enum:' + Q('Unit')),
+                          field('payments', 7, Q('Money.Status'), repeated=True)], nested=[hist_e])])
+    std = desc.std_dep_names()
+    common.dependency.extend(std)
+    f.dependency.extend(std + [common.name])
+    return [common, f], []
+
+
+def pack_subpackages_only():
+    """Every target file lives in a proto sub-package of the API (the googleads layout); classes keep their own full names."""
+    e = file('acme/wire/v1/enums/kinds.proto', P + '.enums', enums=[enum('Kind', 'KIND_UNSPECIFIED', 'BIG', 'SMALL')])
+    r = file('acme/wire/v1/resources/item.proto', P + '.resources', messages=[
+        message('Item', [field('name', 1, 'string'), field('kind', 2, 'enum:' + f'.{P}.enums.Kind'), field('parts', 3, f'.{P}.resources.Item.Part', repeated=True)],
+                nested=[message('Part', [field('n', 1, 'int32')])])])
+    o = file('acme/wire/v1/ops/op.proto', P + '.ops', messages=[
+        message('Op', [field('item', 1, f'.{P}.resources.Item'), field('part', 2, f'.{P}.resources.Item.Part'), field('kind', 3, 'enum:' + f'.{P}.enums.Kind')])])
+    std = desc.std_dep_names()
+    e.dependency.extend(std)
+    r.dependency.extend(std + [e.name])
+    o.dependency.extend(std + [e.name, r.name])
+    return [e, r, o], []
+
+
 def negative_enum_pack():
     f = file('acme/wire/v1/neg.proto', P, enums=[enum('Signed', ('SIGNED_UNSPECIFIED', 0), ('MINUS', -1), ('PLUS', 1))],
              messages=[message('UsesSigned', [field('s', 1, 'enum:' + Q('Signed'))])])
@@ -299,6 +333,8 @@ def make_jobs(ctx, only=None):
     add('recursion', *pack_recursion())
     add('same-basename', *pack_same_basename())
     add('nested-module-names', *pack_nested_module_names())
+    add('alias-nested-type', *pack_alias_nested_type())
+    add('subpackages-only', *pack_subpackages_only())
     add('negative-enum', *negative_enum_pack())
     add('keyword-enum-values', *keyword_enum_values_pack())
     files, deps, mods, cells = pack_refs(4)
